@@ -318,7 +318,7 @@ func (w *World) formV2(renter *Wallet, n *Node) *PoolTxn {
 	c := &Contract{idx: len(w.contracts), v2: true, renter: renter, host: host, hostUp: true}
 	child := n.tip.Index.Height + 1
 	ph := child + uint64(t.Range(1, 12))
-	hostVal := types.Siacoins(uint32(t.Range(0, 20)))
+	hostVal := types.Siacoins(uint32(t.Range(0, 20))).Add(types.NewCurrency64(uint64(t.Choose(1000)))) // (odd hastings on both sides: the tax is on their sum)
 	fc := types.V2FileContract{
 		ProofHeight:      ph,
 		ExpirationHeight: ph + uint64(t.Range(1, 8)),
@@ -440,8 +440,8 @@ func (w *World) resolveV2(n *Node) *PoolTxn {
 		nc.RevisionNumber = 0
 		nc.ProofHeight = child + uint64(t.Range(2, 10))
 		nc.ExpirationHeight = nc.ProofHeight + uint64(t.Range(1, 6))
-		nc.RenterOutput.Value = types.Siacoins(uint32(t.Range(1, 20)))
-		nc.HostOutput.Value = types.Siacoins(uint32(t.Range(0, 10)))
+		nc.RenterOutput.Value = types.Siacoins(uint32(t.Range(1, 20))).Add(types.NewCurrency64(uint64(t.Choose(100))))
+		nc.HostOutput.Value = types.Siacoins(uint32(t.Range(0, 10))).Add(types.NewCurrency64(uint64(t.Choose(100))))
 		nc.MissedHostValue = nc.HostOutput.Value.Div64(2)
 		nc.TotalCollateral = nc.HostOutput.Value.Div64(2)
 		ren := &types.V2FileContractRenewal{NewContract: nc, FinalRenterOutput: fc.RenterOutput, FinalHostOutput: fc.HostOutput}
